@@ -451,6 +451,7 @@ def get_model_parser(top_rule, comments_model, **kwargs):
 
                 # Used to keep track of user class instances
                 self._user_class_inst = []
+                self._user_class_allocated = []
 
                 self._replace_user_attr_methods()
 
@@ -468,6 +469,7 @@ def get_model_parser(top_rule, comments_model, **kwargs):
             except:  # noqa
                 # Restore of user classes replaced attr methods
                 self._restore_user_attr_methods()
+                self._discard_user_obj_attrs()
                 raise
 
             finally:
@@ -561,6 +563,16 @@ def get_model_parser(top_rule, comments_model, **kwargs):
                                 else:
                                     delattr(user_class, real_name)
                                 delattr(user_class, cached_name)
+
+        def _discard_user_obj_attrs(self):
+            """
+            Drop the attributes collected for user class objects which
+            were allocated by this parser and will never be initialized
+            (the load failed). The objects themselves are not kept alive.
+            """
+            for obj in getattr(self, "_user_class_allocated", ()):
+                type(obj)._tx_obj_attrs.pop(id(obj), None)
+            self._user_class_allocated = []
 
     return TextXModelParser(**kwargs)
 
@@ -683,6 +695,7 @@ def parse_tree_to_objgraph(
                 # So that nested object get correct reference
                 inst = user_class.__new__(user_class)
                 user_class._tx_obj_attrs[id(inst)] = {}
+                parser._user_class_allocated.append(inst)
                 is_user = True
 
             else:
@@ -1155,10 +1168,12 @@ def _abort_model_construction(parsers):
     failed load: the parsers of imported models which were already parsed
     still hold their instrumentation of the user classes (it is normally
     given back in _end_model_construction, which these models will never
-    reach).
+    reach), and the attributes collected for their user class objects are
+    still stored in the classes.
     """
     for the_parser in parsers:
         the_parser._restore_user_attr_methods()
+        the_parser._discard_user_obj_attrs()
 
 
 def _remove_all_affected_models_in_construction(model):
